@@ -83,7 +83,10 @@ fn parse_array(buf: &[u8]) -> Result<(ArrayIndex, usize), ParseError> {
     }
 
     let array_size = len as usize;
-    let mut array = Vec::with_capacity(array_size);
+    // Never reserve more elements than there are bytes left in the buffer:
+    // every element takes at least one byte, so a larger declared length cannot be satisfied yet.
+    let remaining = buf.len().saturating_sub(consumed);
+    let mut array = Vec::with_capacity(std::cmp::min(array_size, remaining));
 
     for _ in 0..array_size {
         let next_buf = buf.get(consumed..).ok_or(ParseError::InvalidProtocol)?;
